@@ -38,8 +38,11 @@ CLAIMED['C06'] = dict(
          'functions ternary / if_ / while_ / binary / unary / call / index / list / tuple / map / interpolation / channel / raise are executed with opaque sub-constructs (induction hypothesis: an '
          'expression pushes one value, a block nets its locals): the depth is the same on every path into every join, the '
          'construct has its declared net effect, and the repository\'s own apply_stack_effects, run from MIR on the skeleton, '
-         'computes the real depth at every reachable instruction. Remaining lowering functions and max_slots reservation are not '
-         'yet machine checked.',
+         'computes the real depth at every reachable instruction; C06.K2 Fiber::ensure_stack / push_frame / pop_frame from any fiber '
+         'with 1..3 frames: room for the callee\'s max_slots is reserved above the stack top, and when the buffer moves the stack '
+         'top and the first slot of EVERY frame are rebased into the new buffer at their old offsets (the moved buffer has a new '
+         'identity, so a stale pointer is reported), the callee frame starts argc + 1 below the top and pop_frame drops exactly '
+         'from there. Remaining lowering functions (for / try / launch / class / fun) are not yet machine checked.',
     note='Trusted: rustc MIR printer, mirsym, abstract object identities and call summary at resolve_call (vmabs.py), Z3. '
          'Fiber stack primitives and all ops are executed from MIR.',
     ref='§4 C06')
@@ -200,9 +203,12 @@ CLAIMED['C17'] = dict(
          'export table holds under the requested name and answers non-exported names and missing modules with an import error, a '
          'module that does not compile ends the program with a failing status; C17.K1 find_missing_module over an arbitrary module '
          'tree (uninterpreted child relation) and any path of <= 3 (quick) / 4 segments descends exactly along the path and splits '
-         'it at the first missing segment. Found and fixed F10 (path[0] at every depth) and F20 (exit status 0). The export table / '
-         'module instance construction, module-scope slot declaration and once-only execution under concurrent importers are not '
-         'yet machine checked.',
+         'it at the first missing segment. C17.K3 one inductive step of every Module table operation from an arbitrary module satisfying the '
+         'representation invariant (<= 2 / 3 symbols and exports): insert_symbol, export_symbol, get_exported_symbol_by_name '
+         '(a value exactly for exported names, the one stored for that very name), module_instance (fields set exactly per export), '
+         'set/get by slot and name, Module::import over module trees of depth 2 / 3. Found and fixed F10 (path[0] at every depth), '
+         'F20 (exit status 0) and F28 (a refused duplicate insert_symbol corrupted the name table). Once-only execution under '
+         'concurrent importers is not machine checked.',
     note='Trusted: rustc MIR printer, mirsym, abstract identities for modules / strings (paths compare by identity: interning is '
          'C09), laythe Map over the association-list hash map model, Z3. Assumes the working directory exists.',
     ref='§4 C17')
